@@ -6,6 +6,7 @@ Import ListNotations.
 Open Scope N_scope.
 
 Record obs := Obs {
+  ob_full : bool;          (* false: the state part (tables, store, pools, PFDs) is omitted for this event *)
   ob_crash : bool;
   ob_reply : list N;
   ob_ncmds : N;
@@ -110,14 +111,15 @@ Definition pfds_agree (cs : list (N * conn)) (o : list (N * list (N * list N))) 
 Definition check (w : world) (res : out) (o : obs) : bool :=
   negb (ob_crash o) && list_eqb (enc_reply (o_reply res)) (ob_reply o) &&
   (N.of_nat (length (o_cmds res)) =? ob_ncmds o) &&
-  tables_agree (a_tables (w_agent w)) (ob_tables o) &&
-  store_agree (w_conns w) (ob_store o) &&
-  inv_agree (a_pool (w_agent w)) (ob_inv o) (ob_free o) &&
-  teids_agree (a_teids (w_agent w)) (ob_teids o) &&
   (a_gauge (w_agent w) =? ob_gauge o) &&
   ll_eqb (map (fun m => [m_src m; m_dst m; m_teid m]) (o_markers res)) (ob_markers o) &&
   Bool.eqb (o_shutdown res) (ob_shutdown o) &&
-  pfds_agree (w_conns w) (ob_pfds o).
+  (negb (ob_full o) ||
+   (tables_agree (a_tables (w_agent w)) (ob_tables o) &&
+    store_agree (w_conns w) (ob_store o) &&
+    inv_agree (a_pool (w_agent w)) (ob_inv o) (ob_free o) &&
+    teids_agree (a_teids (w_agent w)) (ob_teids o) &&
+    pfds_agree (w_conns w) (ob_pfds o))).
 
 (* one event: new world, and whether the implementation's observation agrees; None = the model says Crash *)
 Definition step (k : case) (w : world) (e : event) : option (world * out) * obs :=
@@ -147,7 +149,7 @@ Fixpoint first_bad (k : case) (w : world) (es : list event) (i : N) : option N :
     | (Some (w', res), o) =>
       let ok := match e with
                 | EvRestart _ => tables_agree (a_tables (w_agent w')) (ob_tables o) && store_agree (w_conns w') (ob_store o)
-                | EvTeardown _ _ => check w' (Out None (o_cmds res) [] true) (Obs (ob_crash o) [] (ob_ncmds o) (ob_tables o) (ob_store o)
+                | EvTeardown _ _ => check w' (Out None (o_cmds res) [] true) (Obs true (ob_crash o) [] (ob_ncmds o) (ob_tables o) (ob_store o)
                                              (ob_inv o) (ob_free o) (ob_teids o) (ob_gauge o) [] true (ob_pfds o))
                 | EvMsg _ _ _ _ _ => check w' res o
                 end in
